@@ -1221,7 +1221,7 @@ func c07Errors(c *Ctx, walk, step *ssa.Function) {
 		for _, f := range storeFacts {
 			if bo, isB := f.Cond.(*ssa.BinOp); isB && ssau.IsNilConst(bo.Y) && ((bo.Op == token.NEQ && f.True) || (bo.Op == token.EQL && !f.True)) {
 				// (the error may be kept in a field of a record private to the iteration: `attempt.err != nil`)
-				for _, d := range deepDefsCells(bo.X, walkFns) {
+				for _, d := range deepDefsRecords(bo.X, walkFns) {
 					if ex, isEx := d.(*ssa.Extract); isEx && ex.Tuple == ssa.Value(stepCall) && ex.Index == 1 {
 						under = true
 					}
